@@ -227,6 +227,24 @@ def factory_leaves():
     return out
 
 
+def reseeded_application():
+    """The application reseeds Python's global random generator (as test suites and simulations do) before each batch of
+    requests made on engines of its own: the names must not depend on that generator's state."""
+    import random as _random
+    state = _random.getstate()
+    names = []
+    try:
+        for k in range(4):
+            _random.seed(2024)
+            for cls in (iteration.Engine, sql.Engine):
+                eng = cls(name=f"reseeded{k}")
+                for how in ("direct", "leaf", "mat"):
+                    names.append(("tmp", request(eng, how, "tmp")))
+    finally:
+        _random.setstate(state)
+    return names
+
+
 def engine_turnover():
     """Engines created and dropped one after another (one per query is the common pattern): the names handed out by all
     of them, kept by the caller, must still be pairwise distinct."""
@@ -271,7 +289,8 @@ def run(ctx):
     try:
         forced = forced_interleavings() + [("engines created and dropped one after another", engine_turnover()),
                                            ("materializations of statically empty / join-identity relations", trivial_materializations()),
-                                           ("unnamed leaves made by the engines' make_leaf over empty and non-empty payloads", factory_leaves())]
+                                           ("unnamed leaves made by the engines' make_leaf over empty and non-empty payloads", factory_leaves()),
+                                           ("the application reseeds the global random generator before each batch", reseeded_application())]
     except Exception as e:  # noqa: BLE001 — the probe no longer fits the code: reported through the correspondence
         s1["ok"] = False
         s1["broken"].append({"kind": "model-implementation-correspondence-broken",
